@@ -2,6 +2,7 @@ package mon
 
 import (
 	"fmt"
+	"math"
 	"runtime"
 	"sort"
 	"sync"
@@ -95,7 +96,7 @@ func init() {
 	h.Register(&h.Monitor{
 		ID:   "C19",
 		Race: true,
-		Rule: "configurations = (tree contents: empty / 1 / 7 / 1000 / 50000 points, uniform / clustered / all-duplicate / mid-line points, 0-90% of the points removed again) x (2..32 goroutines) x (GOMAXPROCS 1, 2, 16) x (yield probability inside the traversal 0, 1/64, 1/4); every goroutine replays a shuffled copy of one query list (Find, Matching, KNearest(Matching) with k in {1,3,16} with and without distance limit, InBound(Matching); with and without per-goroutine buffers; some queries have empty results), each answer compared with the sequential answer. " +
+		Rule: "configurations = (tree contents: empty / 1 / 7 / 1000 / 50000 points, uniform / clustered / all-duplicate / mid-line points, 0-90% of the points removed again) x (2..32 goroutines) x (GOMAXPROCS 1, 2, 16) x (yield probability inside the traversal 0, 1/64, 1/4); every goroutine replays a shuffled copy of one query list (Find, Matching, KNearest(Matching) with k in {1,3,16} with and without distance limit (limits from 0.001 to beyond the whole tree, +Inf), InBound(Matching); with and without per-goroutine buffers; some queries have empty results), each answer compared with the sequential answer. " +
 			"non-trivial = configuration with at least one pair of queries from different goroutines overlapping in time (measured through the traversal hook's event counter); distinct = configuration index and repetition",
 		MinNontrivial: h.Fixed(8, 200),
 		Assumptions: []string{
@@ -189,7 +190,8 @@ func init() {
 						q.k = []int{1, 3, 16}[r.Intn(3)]
 						q.maxDist = -1
 						if r.P(1, 3) {
-							q.maxDist = []float64{0.001, 5, 40, 300}[r.Intn(4)]
+							// (the last four reach beyond the whole tree: a limit that excludes nothing)
+							q.maxDist = []float64{0.001, 5, 40, 300, 2000, 1e9, math.MaxFloat32, math.Inf(1)}[r.Intn(8)]
 						}
 						q.filter = r.Intn(len(c19filters))
 						w := []float64{0, 1, 30, 400}[r.Intn(4)]
@@ -213,8 +215,8 @@ func init() {
 						seq[i] = append([]orb.Pointer(nil), res...)
 					}
 					c.Evals(nq)
-					if hs := twin.VerifHash(idf); hs != hash0 {
-						c.Fail("", "the tree's structure changed during sequential read-only queries", map[string]interface{}{"config": cfg})
+					if hs := twin.VerifHash(idf); hs != hash0 || twin.Bound() != b {
+						c.Fail("", "the tree's structure or bound changed during sequential read-only queries", map[string]interface{}{"config": cfg, "bound_now": sv(twin.Bound())})
 					}
 
 					prev := runtime.GOMAXPROCS(procs)
@@ -298,8 +300,8 @@ func init() {
 						fm, _ := firstMismatch.Load().(string)
 						c.Fail("", "a concurrent query returned something different from the same query run alone", map[string]interface{}{"config": cfg, "mismatches": mismatches, "first": fm})
 					}
-					if hs := tree.VerifHash(idf); hs != hash0 {
-						c.Fail("", "the tree's structure or contents changed during concurrent read-only queries", map[string]interface{}{"config": cfg})
+					if hs := tree.VerifHash(idf); hs != hash0 || tree.Bound() != b {
+						c.Fail("", "the tree's structure, contents or bound changed during concurrent read-only queries", map[string]interface{}{"config": cfg, "bound_now": sv(tree.Bound())})
 					}
 					got := tree.InBound(nil, b)
 					okC := len(got) == len(live)
